@@ -71,7 +71,7 @@ fn width_of_visible(s: &str) -> Option<usize> {
     let mut w = 0;
     for ch in s.chars() {
         w += match ch {
-            'a' | 'b' | 'z' | 'é' | ' ' | '|' | 'x' => 1,
+            'a' | 'b' | 'z' | 'é' | ' ' | '|' | 'x' | 'p' => 1,
             '日' => 2,
             _ => return None, // fragment of an escape sequence or a split character
         };
@@ -263,6 +263,51 @@ pub fn run(tier: Tier, shard: Shard, stats: &mut Stats) {
                         }
                     }
                     pb.abandon();
+                }
+            }
+        }
+    }
+    // wide_msg is as wide as the *rest of the line*, also when a fixed-width, non-truncating field on
+    // the same line is overflowed by its content
+    for tw in 8..=16u16 {
+        let catcher = LineCatcher::new(tw);
+        for (pw, prefix) in [(2usize, "pppp"), (4, "pppp"), (6, "pppp"), (3, "日日")] {
+            for last in [true, false] {
+                for c in all.iter().filter(|c| c.len() <= 3) {
+                    case += 1;
+                    if !shard.owns(case) {
+                        continue;
+                    }
+                    stats.evaluations += 1;
+                    stats.transitions += 1;
+                    let tpl = if last { format!("{{prefix:{pw}}} {{wide_msg}}") } else { format!("{{prefix:{pw}}} {{wide_msg}}|") };
+                    let content = text_of(c);
+                    let hist = vec![tpl.clone(), format!("terminal width {tw}"), format!("prefix {:?}", prefix), format!("{:?}", content)];
+                    let r = catch(|| {
+                        let pb = bar_on(&catcher, Some(5), ProgressStyle::with_template(&tpl).unwrap()).with_prefix(prefix).with_message(content.clone());
+                        let l = frame_lines(&catcher, &pb);
+                        pb.abandon();
+                        l
+                    });
+                    match r {
+                        Err(p) => stats.violation(Violation { class: format!("panic: {}", panic_class(&p)), config: "wide_msg+field".into(), history: hist, detail: p }),
+                        Ok(lines) => {
+                            let line = lines.first().cloned().unwrap_or_default();
+                            let pcols = width_of_visible(prefix).unwrap_or(0).max(pw);
+                            let other = pcols + 1 + usize::from(!last);
+                            let left = (tw as usize).saturating_sub(other);
+                            let (vis, _) = strip_csi(&line);
+                            let total = width_of_visible(&vis).unwrap_or(usize::MAX);
+                            let content_cols: usize = visible(c).iter().map(|v| v.1).sum();
+                            // the whole line is exactly the terminal width (or shorter only by a trimmed / wide-char remainder)
+                            let ok = if last { total <= tw as usize && (content_cols <= left || total + 1 >= tw as usize) } else { total == tw as usize || (c.contains(&3) && total + 1 == tw as usize) };
+                            if !ok {
+                                stats.violation(Violation { class: "wide_msg: not as wide as the rest of the line next to an overflowing fixed-width field".into(), config: "wide_msg+field".into(), history: hist, detail: format!("line {:?} is {total} columns on a {tw}-column terminal", line) });
+                            } else {
+                                stats.state(hash_of(&("wide+field", tw, pw, last, c.len(), c.iter().max())), true);
+                            }
+                        }
+                    }
                 }
             }
         }
